@@ -182,6 +182,11 @@ fn gen_runs(seed: u64, tier: Tier, for_c01: bool) -> CaseSet {
         cases.push(format!("(mkRun {} {})", cf::n(id), res.term_body));
     }
     stats.rule = format!("{} simulated runs of n validators (each correct one = the real PoolImpl + the real Votor) in virtual time: stake families equal / 19+19 % faulty / faulty exactly 20 % (fast path) / skewed whale / no faults / small integers; crashed (from the start or mid-run) and Byzantine (silent, or noisy: equivocating notar votes, skip+notar, final without notar, fallback votes, window-wide skips; as leaders silent / equivocating / partial dissemination) validators placed on the leader positions the run reaches; network before stabilisation: timely, random long delays, partition, straggler, lossy; after: random / always DELTA / minimal / per-link; duplication 5 % in a third of the runs; non-trivial = at least one window judged by the progress oracle; distinct by full recorded run", nruns);
+    {
+        let (m, problem) = crate::sim::timer_schedule(ring.get(4));
+        if let Some(e) = problem { stats.harness_findings.push((0, format!("sim:timer-task-malformed:Votor::set_timeouts delivered {} instead of the crashed-leader timeout followed by one timeout per slot of window 0", e.chars().take(120).collect::<String>()))); }
+        stats.distribution.push(("timer_schedule_ms_after_set_timeouts".into(), format!("measured from the real timer task: crashed-leader {} slots {:?}; documented: {:?}", m.0, m.1, crate::sim::mirrored_timer_schedule())));
+    }
     stats.distribution.push(("scenario_classes".into(), classes.iter().map(|(k, c)| format!("{}={}", k, c)).collect::<Vec<_>>().join(", ")));
     stats.distribution.push(("adversary_and_recovery_actions".into(), kinds.iter().map(|(k, c)| format!("{}={}", k, c)).collect::<Vec<_>>().join(", ")));
     stats.distribution.push(("windows_judged_after_stabilisation".into(), format!("correct leader={} faulty leader={}", good, faulty)));
